@@ -43,6 +43,14 @@ pub fn run_alg(args: &[Sx]) -> Sx {
             _ => alg_typed(&ga, &gb, &gc),
         };
         if !(base == alt) { emit(a("ORACLE-FAIL:record-types-disagree-on-overlap/len")) };
+        // the same through METHOD-CALL syntax on the concrete types (an inherent method of the same name would be picked
+        // here instead of the trait's) and through the trait path
+        let l1 = vec![ga.len(), gb.len(), gc.len(), bed6(&ga).len(), np(&gb).len(), bed6(&gc).to_genomic_range().len()];
+        let l2 = vec![BEDLike::len(&ga), BEDLike::len(&gb), BEDLike::len(&gc), BEDLike::len(&ga), BEDLike::len(&gb), BEDLike::len(&gc)];
+        if l1 != l2 { emit(a("ORACLE-FAIL:len()-by-method-call-differs-from-BEDLike::len")); }
+        let o1 = vec![ov(ga.overlap(&gb)), ov(gb.to_genomic_range().overlap(&ga.to_genomic_range()))];
+        let o2 = vec![ov(BEDLike::overlap(&ga, &gb)), ov(BEDLike::overlap(&gb, &ga))];
+        if o1 != o2 || ga.n_overlap(&gb) != BEDLike::n_overlap(&ga, &gb) { emit(a("ORACLE-FAIL:overlap-by-method-call-differs-from-BEDLike::overlap")); }
         for x in base {
             emit(x);
         }
@@ -157,6 +165,16 @@ pub fn run_merge(args: &[Sx]) -> Sx {
         let gs = groups.into_inner().unwrap();
         if !(n_out == gs.len()) { emit(a("ORACLE-FAIL:outputs-!=-groups")) };
         emit(tag("groups", gs));
+        // a LAZY source: the same records followed by an endless honest tail of far-away singleton records on a later
+        // chromosome (its size_hint is astronomically large); the leading groups must come out the same, one by one
+        {
+            let last_chrom = recs.iter().map(|r| r.chrom.clone()).max().unwrap_or_default();
+            let tail_chrom = format!("{}~tail", last_chrom);
+            let tail = (0..u64::MAX / 4).map(move |i| BedGraph::new(tail_chrom.as_str(), i * 3, i * 3 + 1, -7i64));
+            let lazy: Vec<Vec<i64>> = merge_sorted_bed_with(recs.clone().into_iter().chain(tail), |g: Vec<BedGraph<i64>>| g.iter().map(|r| r.value).collect::<Vec<i64>>()).take(n_out + 2).collect();
+            let eager: Vec<Vec<i64>> = merge_sorted_bed_with(recs.clone(), |g: Vec<BedGraph<i64>>| g.iter().map(|r| r.value).collect::<Vec<i64>>()).collect();
+            if lazy.len() != n_out + 2 || lazy[..n_out] != eager[..] || lazy[n_out] != vec![-7i64] { emit(a("ORACLE-FAIL:leading-groups-of-a-lazy-endless-source-differ")); }
+        }
         let ranges: Vec<GenomicRange> = merge_sorted_bed(recs.clone()).collect();
         emit(tag("ranges", ranges.iter().map(sx_region).collect()));
         // the same stream however it is walked: k external next() calls, then internal iteration (fold / for_each /
